@@ -1744,131 +1744,107 @@ class VM:
     def _make_number_method(self, n: float, method: str) -> Any:
         """Create a bound number method."""
 
+        from decimal import Decimal, ROUND_HALF_UP, localcontext
+
+        def digits_arg(args, what, low, high):
+            """A digit-count argument: ToIntegerOrInfinity, then the range check."""
+            value = to_integer(args[0]) if args else 0
+            if not (low <= value <= high):
+                raise JSRangeError(f"{what} argument must be between {low} and {high}")
+            return int(value)
+
+        def finite(x):
+            return not (isinstance(x, float) and (math.isnan(x) or math.isinf(x)))
+
+        def round_digits(x, count):
+            """(digits, e): the count significant decimal digits of x > 0 nearest to it
+            (ties away from zero, on the exact binary value) and the exponent of the first."""
+            with localcontext() as ctx:
+                ctx.prec = 1200
+                exact = Decimal(x)
+                e = exact.adjusted()
+                scaled = exact.scaleb(count - 1 - e).quantize(Decimal(1), rounding=ROUND_HALF_UP)
+                if scaled >= Decimal(10) ** count:
+                    e += 1
+                    scaled = exact.scaleb(count - 1 - e).quantize(Decimal(1), rounding=ROUND_HALF_UP)
+                return str(int(scaled)), e
+
+        def exponential(sign, digits, e):
+            head = digits[0] + ("." + digits[1:] if len(digits) > 1 else "")
+            return f"{sign}{head}e{'+' if e >= 0 else '-'}{abs(e)}"
+
         def toFixed(*args):
-            digits = int(to_number(args[0])) if args else 0
-            if digits < 0 or digits > 100:
-                raise JSRangeError("toFixed() digits out of range")
-            # Use JavaScript-style rounding (round half away from zero)
-            rounded = js_round(n, digits)
-            result = f"{rounded:.{digits}f}"
-            # Handle negative zero: if n was negative but rounded to 0, keep the sign
-            if n < 0 or (n == 0 and math.copysign(1, n) == -1):
-                if rounded == 0:
-                    result = "-" + result.lstrip("-")
-            return result
+            digits = digits_arg(args, "toFixed() digits", 0, 100)
+            if not finite(n) or abs(n) >= 1e21:
+                return to_string(n)
+            sign = "-" if n < 0 else ""
+            with localcontext() as ctx:
+                ctx.prec = 1200
+                # Round the exact binary value, ties away from zero
+                rounded = Decimal(abs(n)).quantize(
+                    Decimal(1).scaleb(-digits), rounding=ROUND_HALF_UP
+                )
+                return sign + format(rounded, "f")
 
         def toString(*args):
-            radix = int(to_number(args[0])) if args else 10
+            radix = 10 if not args or args[0] is UNDEFINED else to_integer(args[0])
             if radix < 2 or radix > 36:
                 raise JSRangeError("toString() radix must be between 2 and 36")
-            if radix == 10:
-                if isinstance(n, float) and n.is_integer():
-                    return str(int(n))
-                return str(n)
+            if radix == 10 or not finite(n):
+                return to_string(n)
             # Convert to different base
             if n < 0:
-                return "-" + self._number_to_base(-n, radix)
-            return self._number_to_base(n, radix)
+                return "-" + self._number_to_base(-n, int(radix))
+            return self._number_to_base(n, int(radix))
 
         def toExponential(*args):
-            import math
-
+            digits = None
             if args and args[0] is not UNDEFINED:
-                digits = int(to_number(args[0]))
-            else:
-                digits = None
-
-            if math.isnan(n):
-                return "NaN"
-            if math.isinf(n):
-                return "-Infinity" if n < 0 else "Infinity"
-
+                digits = to_integer(args[0])
+            if not finite(n):
+                return to_string(n)
+            if digits is not None and not (0 <= digits <= 100):
+                raise JSRangeError("toExponential() digits argument must be between 0 and 100")
+            sign = "-" if n < 0 else ""
+            x = abs(n)
+            if x == 0:
+                return exponential("", "0" * (1 if digits is None else int(digits) + 1), 0)
             if digits is None:
-                # Default precision - minimal representation
-                # Use repr-style formatting and convert to exponential
-                if n == 0:
-                    return "0e+0"
-                sign = "-" if n < 0 else ""
-                abs_n = abs(n)
-                exp = int(math.floor(math.log10(abs_n)))
-                mantissa = abs_n / (10**exp)
-                # Format mantissa without trailing zeros
-                mantissa_str = f"{mantissa:.15g}".rstrip("0").rstrip(".")
-                exp_sign = "+" if exp >= 0 else ""
-                return f"{sign}{mantissa_str}e{exp_sign}{exp}"
-            else:
-                if digits < 0 or digits > 100:
-                    raise JSRangeError("toExponential() digits out of range")
-                # Round to specified digits
-                if n == 0:
-                    return "0" + ("." + "0" * digits if digits > 0 else "") + "e+0"
-                sign = "-" if n < 0 else ""
-                abs_n = abs(n)
-                exp = int(math.floor(math.log10(abs_n)))
-                mantissa = abs_n / (10**exp)
-                # Round mantissa to specified digits using JS-style rounding
-                rounded = js_round(mantissa, digits)
-                if rounded >= 10:
-                    rounded /= 10
-                    exp += 1
-                if digits == 0:
-                    mantissa_str = str(int(js_round(rounded)))
-                else:
-                    mantissa_str = f"{rounded:.{digits}f}"
-                exp_sign = "+" if exp >= 0 else ""
-                return f"{sign}{mantissa_str}e{exp_sign}{exp}"
+                # As many digits as needed to identify the number (those of ToString)
+                mantissa, _, exp = repr(float(x)).partition("e")
+                int_part, _, frac_part = mantissa.partition(".")
+                all_digits = (int_part + frac_part).lstrip("0")
+                e = (
+                    len(int_part.lstrip("0")) - 1
+                    if int_part.strip("0")
+                    else -(len(frac_part) - len(frac_part.lstrip("0"))) - 1
+                ) + (int(exp) if exp else 0)
+                return exponential(sign, all_digits.rstrip("0") or "0", e)
+            found, e = round_digits(x, int(digits) + 1)
+            return exponential(sign, found, e)
 
         def toPrecision(*args):
-            import math
-
             if not args or args[0] is UNDEFINED:
-                if isinstance(n, float) and n.is_integer():
-                    return str(int(n))
-                return str(n)
-
-            precision = int(to_number(args[0]))
-            if precision < 1 or precision > 100:
-                raise JSRangeError("toPrecision() precision out of range")
-
-            if math.isnan(n):
-                return "NaN"
-            if math.isinf(n):
-                return "-Infinity" if n < 0 else "Infinity"
-
-            if n == 0:
-                if precision == 1:
-                    return "0"
-                return "0." + "0" * (precision - 1)
-
+                return to_string(n)
+            precision = to_integer(args[0])
+            if not finite(n):
+                return to_string(n)
+            if not (1 <= precision <= 100):
+                raise JSRangeError("toPrecision() argument must be between 1 and 100")
+            precision = int(precision)
             sign = "-" if n < 0 else ""
-            abs_n = abs(n)
-            exp = int(math.floor(math.log10(abs_n)))
-
-            # Decide if we use exponential or fixed notation
-            if exp < -6 or exp >= precision:
-                # Use exponential notation
-                mantissa = abs_n / (10**exp)
-                rounded = js_round(mantissa, precision - 1)
-                if rounded >= 10:
-                    rounded /= 10
-                    exp += 1
-                if precision == 1:
-                    mantissa_str = str(int(js_round(rounded)))
-                else:
-                    mantissa_str = f"{rounded:.{precision - 1}f}"
-                exp_sign = "+" if exp >= 0 else ""
-                return f"{sign}{mantissa_str}e{exp_sign}{exp}"
+            x = abs(n)
+            if x == 0:
+                found, e = "0" * precision, 0
             else:
-                # Use fixed notation
-                # Calculate digits after decimal
-                if exp >= 0:
-                    decimal_places = max(0, precision - exp - 1)
-                else:
-                    decimal_places = precision - 1 - exp
-                rounded = js_round(abs_n, decimal_places)
-                if decimal_places <= 0:
-                    return f"{sign}{int(rounded)}"
-                return f"{sign}{rounded:.{decimal_places}f}"
+                found, e = round_digits(x, precision)
+            if e < -6 or e >= precision:
+                return exponential(sign, found, e)
+            if e == precision - 1:
+                return sign + found
+            if e >= 0:
+                return sign + found[: e + 1] + "." + found[e + 1 :]
+            return sign + "0." + "0" * (-(e + 1)) + found
 
         def valueOf(*args):
             return n
@@ -1883,19 +1859,44 @@ class VM:
         return methods.get(method, lambda *args: UNDEFINED)
 
     def _number_to_base(self, n: float, radix: int) -> str:
-        """Convert number to string in given base."""
-        if n != int(n):
-            # For non-integers, just use base 10
-            return str(n)
-        n = int(n)
-        if n == 0:
-            return "0"
+        """Convert a non-negative finite number to a string in the given base."""
         digits = "0123456789abcdefghijklmnopqrstuvwxyz"
+        integer = int(n)
+        fraction = n - integer
         result = []
-        while n:
-            result.append(digits[n % radix])
-            n //= radix
-        return "".join(reversed(result))
+        while integer:
+            result.append(digits[integer % radix])
+            integer //= radix
+        text = "".join(reversed(result)) or "0"
+        if fraction:
+            # Fraction digits until the remainder is below the number's precision
+            delta = max(0.5 * (math.nextafter(n, math.inf) - n), 5e-324)
+            out = []
+            while fraction >= delta and len(out) < 1100:
+                fraction *= radix
+                delta *= radix
+                digit = int(fraction)
+                out.append(digits[digit])
+                fraction -= digit
+                if fraction > 0.5 or (fraction == 0.5 and digit & 1):
+                    if fraction + delta > 1:
+                        # Round up and propagate the carry
+                        i = len(out) - 1
+                        while True:
+                            if i < 0:
+                                text = self._number_to_base(int(text, radix) + 1, radix)
+                                break
+                            d = digits.index(out[i]) + 1
+                            if d < radix:
+                                out[i] = digits[d]
+                                break
+                            out[i] = "0"
+                            i -= 1
+                        break
+            frac_text = "".join(out).rstrip("0")
+            if frac_text:
+                text += "." + frac_text
+        return text
 
     def _make_string_method(self, s: str, method: str) -> Any:
         """Create a bound string method."""
